@@ -624,6 +624,7 @@ func nativeReplay(repo, verif, pdir, id string, g GroupCfg, replayPath, scratch 
 	var out bytes.Buffer
 	var runErr error
 	straceEscapes := ""
+	straceAtomic := ""
 	if g.Strace {
 		bin := filepath.Join(scratch, "replay_"+sanitize(g.Package)+".test")
 		build := exec.Command("go", "test", "-c", "-vet=off", "-overlay", ovFile, "-o", bin, "./"+g.Package)
@@ -633,13 +634,14 @@ func nativeReplay(repo, verif, pdir, id string, g GroupCfg, replayPath, scratch 
 			return false, "replay build failed: " + firstLines(string(bo), 6)
 		}
 		traceFile := filepath.Join(scratch, "strace_"+sanitize(filepath.Base(replayPath))+".txt")
-		cmd := exec.Command("strace", "-f", "-s", "4096", "-e", "trace=%file", "-o", traceFile, bin, "-test.run", "^TestVerifReplay$", "-test.v", "-test.timeout", "120s")
+		cmd := exec.Command("strace", "-f", "-y", "-s", "4096", "-e", "trace=%file,write,pwrite64,fsync,fdatasync,close,fchmod,ftruncate", "-o", traceFile, bin, "-test.run", "^TestVerifReplay$", "-test.v", "-test.timeout", "120s")
 		cmd.Dir = filepath.Join(repo, g.Package)
 		cmd.Env = env
 		cmd.Stdout = &out
 		cmd.Stderr = &out
 		runErr = cmd.Run()
 		straceEscapes = sandboxEscapes(out.String(), traceFile, rf.Assert)
+		straceAtomic = atomicViolations(out.String(), traceFile)
 	} else {
 		cmd := exec.Command("go", "test", "-v", "-vet=off", "-count=1", "-timeout", "120s", "-run", "^TestVerifReplay$", "-overlay", ovFile, "./"+g.Package)
 		cmd.Dir = repo
@@ -657,6 +659,9 @@ func nativeReplay(repo, verif, pdir, id string, g GroupCfg, replayPath, scratch 
 	}
 	if straceEscapes != "" && rf.Kind == "assert" && strings.Contains(rf.Assert, "-inside-") {
 		return true, "real system call outside the sandbox root: " + straceEscapes
+	}
+	if straceAtomic != "" && rf.Kind == "assert" {
+		return true, "real system calls violate atomic publication: " + straceAtomic
 	}
 	switch rf.Kind {
 	case "assert":
@@ -789,6 +794,127 @@ func sandboxEscapes(stdout, traceFile, assertID string) string {
 				l = l[i+1:]
 			}
 			return l
+		}
+	}
+	return ""
+}
+
+// ---------- native atomic-publication automaton on real system calls ----------
+
+var straceLineRe = regexp.MustCompile(`^(\d+)\s+(.*)$`)
+var fdPathRe = regexp.MustCompile(`^\w+\((\d+)<([^>]*)>`)
+
+// joinStrace re-assembles "<unfinished ...>" / "<... resumed>" pairs.
+func joinStrace(text string) []string {
+	pending := map[string]string{}
+	var out []string
+	for _, l := range strings.Split(text, "\n") {
+		m := straceLineRe.FindStringSubmatch(l)
+		if m == nil {
+			continue
+		}
+		pid, rest := m[1], m[2]
+		if i := strings.Index(rest, " <unfinished ...>"); i >= 0 {
+			pending[pid] = rest[:i]
+			continue
+		}
+		if strings.HasPrefix(rest, "<... ") {
+			if j := strings.Index(rest, " resumed>"); j >= 0 {
+				rest = pending[pid] + rest[j+len(" resumed>"):]
+				delete(pending, pid)
+			}
+		}
+		out = append(out, rest)
+	}
+	return out
+}
+
+// atomicViolations checks, on the real system calls between the harness
+// markers, that every rename onto a declared destination is preceded by a
+// successful fsync (after the last write) and close of the renamed file, and
+// that the destination is never opened for writing or unlinked.
+func atomicViolations(stdout, traceFile string) string {
+	var dests []string
+	for _, l := range strings.Split(stdout, "\n") {
+		if strings.HasPrefix(l, "VERIF-ATOMIC-DEST ") {
+			dests = append(dests, strings.TrimSpace(strings.TrimPrefix(l, "VERIF-ATOMIC-DEST ")))
+		}
+	}
+	if len(dests) == 0 {
+		return ""
+	}
+	b, err := os.ReadFile(traceFile)
+	if err != nil {
+		return ""
+	}
+	isDest := func(p string) bool {
+		for _, d := range dests {
+			if p == d {
+				return true
+			}
+		}
+		return false
+	}
+	type fileState struct{ lastWrite, syncAt, closeAt int }
+	files := map[string]*fileState{}
+	get := func(p string) *fileState {
+		if files[p] == nil {
+			files[p] = &fileState{-1, -1, -1}
+		}
+		return files[p]
+	}
+	active := false
+	for i, l := range joinStrace(string(b)) {
+		if strings.Contains(l, "/VERIF-MARK-BEGIN") {
+			active = true
+			continue
+		}
+		if strings.Contains(l, "/VERIF-MARK-END") {
+			active = false
+			continue
+		}
+		if !active {
+			continue
+		}
+		okRet := strings.Contains(l, ") = 0") || regexp.MustCompile(`\) = \d+`).MatchString(l)
+		name := l
+		if j := strings.Index(l, "("); j > 0 {
+			name = l[:j]
+		}
+		switch name {
+		case "write", "pwrite64", "fchmod", "ftruncate":
+			if m := fdPathRe.FindStringSubmatch(l); m != nil {
+				get(m[2]).lastWrite = i
+			}
+		case "fsync", "fdatasync":
+			if m := fdPathRe.FindStringSubmatch(l); m != nil && strings.Contains(l, ") = 0") {
+				get(m[2]).syncAt = i
+			}
+		case "close":
+			if m := fdPathRe.FindStringSubmatch(l); m != nil && strings.Contains(l, ") = 0") {
+				get(m[2]).closeAt = i
+			}
+		case "openat", "open", "creat":
+			qs := quotedRe.FindAllStringSubmatch(l, -1)
+			if len(qs) > 0 && isDest(qs[0][1]) && (strings.Contains(l, "O_WRONLY") || strings.Contains(l, "O_RDWR") || strings.Contains(l, "O_TRUNC")) {
+				return "destination opened for writing: " + l
+			}
+		case "unlink", "unlinkat":
+			qs := quotedRe.FindAllStringSubmatch(l, -1)
+			if len(qs) > 0 && isDest(qs[0][1]) && okRet {
+				return "destination unlinked: " + l
+			}
+		case "rename", "renameat", "renameat2":
+			qs := quotedRe.FindAllStringSubmatch(l, -1)
+			if len(qs) >= 2 && isDest(qs[1][1]) {
+				st := get(qs[0][1])
+				if st.syncAt < 0 || st.syncAt < st.lastWrite {
+					return "rename onto destination without a successful fsync after the last write: " + l
+				}
+				if st.closeAt < st.syncAt {
+					return "rename onto destination before the file was closed after fsync: " + l
+				}
+			}
 		}
 	}
 	return ""
